@@ -292,6 +292,9 @@ func (x *Exec) assertRequiresOnly(st *State, in ssa.Instruction, fc *FuncContrac
 			if p, ok := b.(*Ptr); ok {
 				val, t := x.load(st, p)
 				vars[f.FreeVars[i].Name()] = TV{V: val, T: t, S: x.prog.sortOf(t)}
+				if bn := x.prog.baseFreeVarName(f, i); bn != "" {
+					vars[bn] = vars[f.FreeVars[i].Name()]
+				}
 			}
 		}
 	}
@@ -409,7 +412,11 @@ func (x *Exec) lockProtocol(st *State, in ssa.Instruction, acquire bool) {
 		return
 	}
 	for _, lp := range x.fc.LockProtocols {
-		if lp.Mutex != name {
+		want := lp.Mutex
+		if r, ok := x.prog.renamedLocal(x.fn, lp.Mutex); ok {
+			want = r
+		}
+		if want != name {
 			continue
 		}
 		if acquire {
@@ -433,6 +440,6 @@ func (x *Exec) lockProtocol(st *State, in ssa.Instruction, acquire bool) {
 			continue
 		}
 		ctx := x.ctxFor(st, snap, nil)
-		x.oblige(st, "guard", "lock_protocol."+lp.Clause.Label+"@"+name, x.evalBool(ctx, lp.Clause), lp.Clause.Text)
+		x.oblige(st, "guard", "lock_protocol."+lp.Clause.Label+"@"+lp.Mutex, x.evalBool(ctx, lp.Clause), lp.Clause.Text)
 	}
 }
